@@ -59,14 +59,16 @@ ProbeQMap == VM("a" :> VL(<<VM(("id" :> VS("1")) @@ ("c" :> VS("x"))),
                             VM(("id" :> VS("6")) @@ ("x" :> VS("c")))>>))
 \* sub-key strings (character sequences): each is legal under BOTH separators and denotes different conditions
 SubKeyStrs == {<<"c", ":", "x">>, <<"c", "|", "x">>, <<"c", "|", "x", ":", "x">>, <<"c", ":", "x", "|", "x">>,
-               <<"!", "c", ":", "x", "|", "x">>, <<"c", ":", "*">>, <<"c", "|", "*">>, <<"!", "c", "|", "x", ":", "*">>}
+               <<"!", "c", ":", "x", "|", "x">>, <<"c", ":", "*">>, <<"c", "|", "*">>, <<"!", "c", "|", "x", ":", "*">>,
+               <<"c", ":", ":", "x">>, <<"c", ":", ":", "x", ":", "x">>}
 
 \* leaf texts whose cast depends on the cast registers (what each denotes: CastCatalogue)
-CastTexts == {"Infinity", "+Inf", "NaN", "1", "1.5", "true", "9223372036854775807", "v"}
+CastTexts == {"Infinity", "+Inf", "NaN", "1", "1.5", "true", "9223372036854775807", "v", "007", "0x1F"}
 CastOptsOf(o) == [cast |-> TRUE, toInt |-> o.castInt, toFloat |-> o.castFloat, toBool |-> o.castBool, nanInf |-> o.castNanInf, skipTag |-> "0"]
 
 \* new-value strings "k<sep>v" of UpdateValuesForPath: split by the SAME field-separator register as sub-keys
-NewValStrs == {<<"c", ":", "N">>, <<"c", "|", "N">>, <<"c", "|", "x", ":", "N">>, <<"c", ":", "x", "|", "N">>}
+NewValStrs == {<<"c", ":", "N">>, <<"c", "|", "N">>, <<"c", "|", "x", ":", "N">>, <<"c", ":", "x", "|", "N">>,
+               <<"c", ":", ":", "N">>, <<"c", ":", ":", "x", ":", "N">>}       \* (a separator of two characters)
 UpdResult(o, s) == LET ps == SplitOn(s, o.fieldSep) IN
                    IF NewValClass(s, o.fieldSep) = "err" THEN [ok |-> FALSE, c |-> 0, post |-> ProbeQMap]
                    ELSE LET r == UpdateOp(ProbeQMap, Join(ps[1]), VS(Join(ps[2])), <<"a">>, {}) IN [ok |-> TRUE, c |-> r.c, post |-> r.n]
